@@ -9,7 +9,7 @@ from astlib import find_all, find_first, show, show_pat
 from rules.common import flat, flatp, has, same
 
 EXPLANATION = (
-    "Static analysis; nothing executed. Decided structural clauses: (R1) walk completeness: find_used_datakey matches every "
+    "Primary clause (R0): the option walk, the locale accessors and the driver construction are interpreted abstractly (rules/absint.py; nothing compiled or run) over generated key trees; the derived options must be exactly the families present. The structural clauses R1 / R4 are used only when the code leaves the interpreter's fragment. Static analysis; nothing executed. Decided structural clauses: (R1) walk completeness: find_used_datakey matches every "
     "LocaleValue shape without a catch-all, recurses into sub-keys with the same accumulator, visits every variable "
     "(iter_vars) and every formatter of it, and no loop of the walk (nor of get_icu_keys_inner over the namespaces) can be "
     "left before its iterator is exhausted - checked on MIR loop exits and on the absence of short-circuiting adaptors; "
@@ -564,7 +564,7 @@ def run(ctx):
 
 
 MANIFEST_ENTRY = {
-    "technique": "static analysis: exhaustiveness and recursion of the LocaleValue walk (syn), MIR loop-exit analysis (a loop may only be left when its iterator returns None) and short-circuit-adaptor ban, formatter->option and plural-detection tables, data-marker closure computed from the `*_unstable` constructor signatures and the icu_datagen key registry of the locked dependency versions, MIR provenance of the reported locale list",
-    "level_text": "Structural clauses only: the walk cannot skip a shape, variable, formatter or namespace nor stop early; the option tables are exact; every data key a run-time constructor loads is requested by its option family under a name icu_datagen knows; the reported locales are the configuration's. The content of generated data is not applicable to static analysis and not claimed.",
+    "technique": "static analysis: abstract evaluation (rules/absint.py) of get_icu_keys / find_used_datakey / get_locales / parse_inner / build_datagen_driver_with_data_keys over generated key trees (families alone and in every order, None formatters, plural vs range counts, sub-keys, several namespaces), oracle = the families present in the tree; MIR who-writes-range_count; data-marker closure of each option family computed from the ICU4X sources Cargo.lock resolves (py/depsrc.py); MIR loop-exit / provenance rules as fallback",
+    "level_text": "Finite abstract evaluation of the option walk (if and only if, any depth, any namespace) and of the locale list; the data keys of each family are closed against the markers required by the ICU4X constructors the run time calls, read from dependency sources. Generated ICU data is not inspected.",
     "level_note": "Fixed upstream: D22 (currency lacked decimal/symbols@1), D23 (namespaces = [] reported no locale). Completeness of the walked key information over locales/foreign keys is C08's clause.",
 }
